@@ -608,7 +608,7 @@ impl VModel {
         };
         format!(
             "[\"vm\", {{ get: () => {t}, set: ($v) => {{ {t} = $v; }}, arg: {arg}, mods: {mods}, typeAttr: {type_attr} }}]",
-            t = self.target,
+            t = ts_erased_target(&self.target),
             mods = mods_array(&mods),
         )
     }
@@ -842,4 +842,10 @@ pub fn v_vnode(id: &str) -> Value {
 }
 pub fn v_comp(id: &str) -> Value {
     json!({"k": "comp", "id": id})
+}
+
+
+/// v-model targets written with TS-only wrappers (`m1!`, `(mo.p as any)`): what they are in JS
+pub fn ts_erased_target(t: &str) -> String {
+    t.replace(" as any", "").replace(" satisfies any", "").replace('!', "")
 }
